@@ -70,18 +70,25 @@ type Scenario struct {
 	PartitionLimit int `json:"partitionLimit,omitempty"`
 	// RollbackInBatch sets the rollouts.kruise.io/rollback-in-batch annotation: a rollback walks the plan again
 	// instead of cancelling (CloneSet without traffic routing only).
-	RollbackInBatch bool       `json:"rollbackInBatch,omitempty"`
-	NoCanarySvc     bool       `json:"disableGenerateCanaryService,omitempty"`
-	Events          []Injected `json:"events,omitempty"`
-	Pre             []string   `json:"pre,omitempty"` // user actions performed after setup, before the release
-	Profile         string     `json:"profile"`       // uniform | ctrl-eager | env-eager | user-eager
-	Seed            int64      `json:"seed"`
-	ApproveLag      int        `json:"approveLag"` // actions to wait before approving a paused step
-	MaxSurge        string     `json:"maxSurge,omitempty"`
-	MaxUnavail      string     `json:"maxUnavailable,omitempty"`
-	NS              string     `json:"ns"`
-	Name            string     `json:"name"` // workload name; rollout = name+"-ro", service = name+"-svc"
-	Grace           int32      `json:"grace"`
+	RollbackInBatch bool `json:"rollbackInBatch,omitempty"`
+	// FailureThreshold is the strategy's failureThreshold ("20%", "1"; "" = unset); UnreadyEvery > 0 makes every
+	// UnreadyEvery-th pod created with the released image never become ready (degraded release).
+	FailureThreshold string     `json:"failureThreshold,omitempty"`
+	UnreadyEvery     int        `json:"unreadyEvery,omitempty"`
+	NoCanarySvc      bool       `json:"disableGenerateCanaryService,omitempty"`
+	Events           []Injected `json:"events,omitempty"`
+	Pre              []string   `json:"pre,omitempty"` // user actions performed after setup, before the release
+	Profile          string     `json:"profile"`       // uniform | ctrl-eager | env-eager | user-eager
+	Seed             int64      `json:"seed"`
+	ApproveLag       int        `json:"approveLag"` // actions to wait before approving a paused step
+	MaxSurge         string     `json:"maxSurge,omitempty"`
+	MaxUnavail       string     `json:"maxUnavailable,omitempty"`
+	NS               string     `json:"ns"`
+	Name             string     `json:"name"` // workload name; rollout = name+"-ro", service = name+"-svc"
+	Grace            int32      `json:"grace"`
+	// SpecGraceZero: the traffic routing entry says gracePeriodSeconds: 0 explicitly ("no need to wait", which the
+	// code promises to respect) while the controllers' built-in waits keep Grace seconds.
+	SpecGraceZero bool `json:"specGraceZero,omitempty"`
 }
 
 func (s *Scenario) String() string {
@@ -131,6 +138,12 @@ func (s *Scenario) Sig() string {
 	}
 	if s.RollbackInBatch {
 		ev = append(ev, "rollback-in-batch")
+	}
+	if s.SpecGraceZero {
+		ev = append(ev, fmt.Sprintf("spec-grace-0/default-grace-%d", s.Grace))
+	}
+	if s.FailureThreshold != "" {
+		ev = append(ev, fmt.Sprintf("failure-threshold=%s/unready-every=%d", s.FailureThreshold, s.UnreadyEvery))
 	}
 	if s.PartitionLimit > 0 {
 		ev = append(ev, fmt.Sprintf("partition-limit=%d", s.PartitionLimit))
@@ -227,6 +240,9 @@ func (s *Scenario) trafficRefs() []v1beta1.TrafficRoutingRef {
 
 func (s *Scenario) trafficRefsRaw() []v1beta1.TrafficRoutingRef {
 	ref := v1beta1.TrafficRoutingRef{Service: s.SvcName(), GracePeriodSeconds: s.Grace}
+	if s.SpecGraceZero {
+		ref.GracePeriodSeconds = 0
+	}
 	for _, p := range strings.Split(s.Provider, "+") {
 		switch {
 		case strings.HasPrefix(p, "ingress"):
@@ -245,10 +261,16 @@ func (s *Scenario) BuildStrategy(steps []Step) v1beta1.RolloutStrategy {
 	st := v1beta1.RolloutStrategy{}
 	if s.Style == "bluegreen" {
 		st.BlueGreen = &v1beta1.BlueGreenStrategy{Steps: s.BuildSteps(steps), TrafficRoutings: s.trafficRefs(), DisableGenerateCanaryService: s.NoCanarySvc}
+		if s.FailureThreshold != "" {
+			st.BlueGreen.FailureThreshold = ios(s.FailureThreshold)
+		}
 		return st
 	}
 	st.Canary = &v1beta1.CanaryStrategy{Steps: s.BuildSteps(steps), TrafficRoutings: s.trafficRefs(), DisableGenerateCanaryService: s.NoCanarySvc,
 		EnableExtraWorkloadForCanary: s.Style == "canary"}
+	if s.FailureThreshold != "" {
+		st.Canary.FailureThreshold = ios(s.FailureThreshold)
+	}
 	return st
 }
 
@@ -435,6 +457,9 @@ func (s *Scenario) SetTemplate(w *World, version string) error {
 
 // Scale is the user's scale action.
 func (s *Scenario) Scale(w *World, n int32) error {
+	if s.Kind == "daemonset" {
+		return nil // a DaemonSet has no replica count; the node set is fixed in the modelled cluster
+	}
 	user := w.Store.As("user")
 	body := fmt.Sprintf(`{"spec":{"replicas":%d}}`, n)
 	obj := s.workloadObject()
@@ -456,6 +481,11 @@ func GenScenario(rng *rand.Rand, family string) *Scenario {
 	s.Replicas = int32(2 + rng.Intn(9))
 	provs := []string{"none", "ingress:nginx", "ingress:nginx", "gateway", "custom", "ingress:nginx+gateway", "ingress:higress", "ingress:aliyun-alb"}
 	s.Provider = provs[rng.Intn(len(provs))]
+	if s.Kind == "daemonset" && rng.Intn(8) != 0 {
+		// an Advanced DaemonSet has no stable revision in its status, and a release with traffic routing waits for one
+		// for ever (known finding); most DaemonSet scenarios therefore release without traffic routing
+		s.Provider = "none"
+	}
 	s.Profile = []string{"uniform", "ctrl-eager", "env-eager", "uniform"}[rng.Intn(4)]
 	s.RolloutID = rng.Intn(3) == 0
 	s.HPA = s.Style == "bluegreen" && rng.Intn(2) == 0
